@@ -25,21 +25,21 @@ func (vpTimeoutErr) Temporary() bool { return true }
 
 // vpConn is a scripted net.Conn.
 type vpConn struct {
-	in       []byte // the byte stream to deliver
-	pos      int
-	whole    []int // when non-nil: deliver exactly these chunk sizes, one per Read
-	chunk    int
-	segment  bool // symbolic segmentation: each Read returns 1..min(len(p), remaining) bytes
-	cut      int  // the stream ends (EOF) or stalls (timeout) at this offset; -1 = no cut
-	cutStall bool
-	resume   bool // after one timeout at the cut the stream goes on (a slow client)
-	stalled  bool
-	timeouts int
+	in                []byte // the byte stream to deliver
+	pos               int
+	whole             []int // when non-nil: deliver exactly these chunk sizes, one per Read
+	chunk             int
+	segment           bool // symbolic segmentation: each Read returns 1..min(len(p), remaining) bytes
+	cut               int  // the stream ends (EOF) or stalls (timeout) at this offset; -1 = no cut
+	cutStall          bool
+	resume            bool // after one timeout at the cut the stream goes on (a slow client)
+	stalled           bool
+	timeouts          int
 	readsAfterTimeout int
-	reads    int
-	maxReads int
-	out      [][]byte
-	closes   int
+	reads             int
+	maxReads          int
+	out               [][]byte
+	closes            int
 	// deadline bookkeeping (C17)
 	deadlineSet   int // number of SetReadDeadline calls
 	armed         bool
@@ -67,7 +67,7 @@ func newVPConn(in []byte) *vpConn {
 
 func (c *vpConn) Read(p []byte) (int, error) {
 	c.reads++
-	vpAssume(c.reads <= c.maxReads) // stated schedule bound
+	vpAssume(c.reads <= c.maxReads)     // stated schedule bound
 	c.readsUnarmed += vpCount(!c.armed) // no finite deadline is in force for this read
 	c.log.add("read")
 	if c.timeouts > 0 {
